@@ -131,6 +131,8 @@ try:
         meta = {'property': prop, 'summary': what, 'generated_against': head}
         if check_with:
             meta['check_with'] = check_with
+        if name == 'revert-F16-unguarded-dependents-creation':
+            meta['expected_miss'] = True      # about 1 in 60 000 thread runs: thorough tier only
         json.dump(meta, open(os.path.join(d, 'meta.json'), 'w'), indent=1)
         print('ok', name)
 finally:
